@@ -15,7 +15,7 @@ U == INSTANCE ClientURL WITH Variant <- "fixed"
 
 Req(r) == [media |-> r.media, method |-> r.method, presetct |-> r.presetct, payload |-> r.payload.kind,
            fields |-> r.fields, files |-> r.files, auth |-> r.auth, defauth |-> r.defauth, k |-> r.k,
-           fault |-> r.payload.fail, debug |-> r.debug]
+           fault |-> r.payload.fail, debug |-> r.debug, pseek |-> r.payload.seekable, pskip |-> r.payload.skip]
 BInit(e) == [reqs |-> [i \in 1..Len(e.reqs) |-> Req(e.reqs[i])]]
 
 Ids(e) == [payload |-> e.supplied.payload, ref |-> e.supplied.ref, files |-> e.supplied.files]
